@@ -1,14 +1,23 @@
 (* Implementation-level model of torch_frame/data/mapper.py: every
    TensorMapper.forward as the pandas/torch pipeline it is, over a small pandas
-   model in which a Series is a list of (label, cell) pairs.  The label type L
-   is abstract: no definition below can inspect a caller's label (C02), and the
-   one pipeline that does bookkeeping by label (multicategorical) first replaces
-   the labels by positions, as the code does.  A raise is None.
+   model in which a Series is a list of (label, cell) pairs.
+
+   Labels.  The label type L comes with a decidable equality `leqb` that the
+   model CAN use: the pandas operations that are keyed by label are modelled as
+   keyed (Section Keyed below: `ser[label]`, boolean-mask alignment,
+   `value_counts().reindex(labels)`, the left merge against an index), and each
+   pipeline uses them exactly where the code does.  In the current code the
+   caller's labels reach a keyed operation in one place only (the boolean mask
+   `ser[offset != 0]` of the sequence mapper, whose index IS the series' index);
+   the categorical and multicategorical mappers first replace the labels by
+   positions (`reset_index(drop=True)`) and do their keyed bookkeeping on those.
+   The pre-fix, label-keyed variants are written in the same vocabulary in
+   Legacy/MapperLegacy.v, where relabelling invariance fails.  A raise is None.
    Definitions only; lemmas are in Proofs/MapperProofs.v.
 
    Modelled primitives (validated against /repo on every run by the
    correspondence of harness/c01.py): Series.values / apply / explode /
-   reset_index / boolean filtering, pd.merge(how='left', right_index=True)
+   reset_index / boolean-mask indexing, pd.merge(how='left', right_index=True)
    against an index, dropna, Index.value_counts + reindex(fill_value=0),
    torch.cumsum / cat / nan_to_num, np.stack, Python str.strip / str.split /
    set(), MultiNestedTensor / MultiEmbeddingTensor constructors (Model/Ragged.v)
@@ -65,6 +74,39 @@ End Series.
 (* ser.reset_index(drop=True): labels become 0..n-1 *)
 Definition reset_index {L C} (s : @series L C) : @series nat C := combine (seq 0 (length s)) (map snd s).
 
+(* ------------------------------------------------------------------------- *)
+(* pandas operations that are keyed by index label *)
+Section Keyed.
+  Context {L : Type} (leqb : L -> L -> bool).
+
+  Fixpoint labels_eqb (a b : list L) : bool :=                     (* Index.equals *)
+    match a, b with
+    | [], [] => true
+    | x :: a', y :: b' => leqb x y && labels_eqb a' b'
+    | _, _ => false
+    end.
+
+  (* ser[label] / ser.loc[label] for a scalar result: KeyError if absent *)
+  Definition ser_loc {C} (s : @series L C) (label : L) : option C :=
+    option_map snd (find (fun p => leqb (fst p) label) s).
+
+  (* idx.value_counts().reindex(target, fill_value=0): for every target label the
+     number of occurrences of that label *)
+  Definition label_counts (labels target : list L) : list nat :=
+    map (fun t => length (filter (leqb t) labels)) target.
+
+  (* ser[mask] for a boolean Series: if mask.index equals ser.index the mask is
+     used positionally; otherwise it is aligned by label (mask.reindex(ser.index):
+     ValueError on duplicated mask labels, IndexingError on a label the mask lacks) *)
+  Definition mask_select {C} (s : @series L C) (mask : @series L bool) : option (@series L C) :=
+    if labels_eqb (map fst s) (map fst mask)
+    then Some (map fst (filter snd (combine s (map snd mask))))
+    else
+      if forallb (fun p => Nat.eqb (length (filter (fun q => leqb (fst q) (fst p)) mask)) 1) mask
+      then option_map (fun bs => map fst (filter snd (combine s bs))) (mapM (fun p => ser_loc mask (fst p)) s)
+      else None.
+End Keyed.
+
 (* ser.explode() on list-likes: one row per element, an empty list-like gives one NaN row;
    labels are repeated *)
 Definition explode {L C} (s : @series L (list C)) : @series L (option C) :=
@@ -102,7 +144,8 @@ Definition numerical_forward {L} (s : @series L (option num)) : list num := map 
 (* CategoricalTensorMapper: categories index; forward = merge (on object keys),
    .values, index[index.isnan()] = -1, .to(long) *)
 Definition categorical_forward {L} (cats : list pval) (s : @series L (option pval)) : list Z :=
-  let index := map snd (merge_left s (range_index cats)) in        (* [...]['index'].values *)
+  let s0 := reset_index s in                                       (* .reset_index(drop=True) *)
+  let index := map snd (merge_left s0 (range_index cats)) in       (* [...]['index'].values *)
   map (fun o => match o with None => (-1)%Z | Some k => k end) index.
 
 (* ------------------------------------------------------------------------- *)
@@ -177,12 +220,10 @@ Definition split_by_sep (row : mc_cell) (sep : option str) : option (list pval) 
 (* self.index = Series(index=Index(categories + [-1], dtype=object), data=[0..len-1] + [-1]) *)
 Definition multicat_index (cats : list pval) : list (pval * Z) := range_index cats ++ [(VInt (-1), (-1)%Z)].
 
-(* offset = ser.index.value_counts().reindex(original_index, fill_value=0) *)
-Definition label_counts (labels target : list nat) : list nat :=
-  map (fun t => count_occ Nat.eq_dec labels t) target.
-
-Definition multicategorical_forward {L} (cats : list pval) (sep : option str) (s : @series L mc_cell)
+(* dtype_ok: ser.dtype == 'object' or is_string_dtype(ser); otherwise ValueError *)
+Definition multicategorical_forward {L} (dtype_ok : bool) (cats : list pval) (sep : option str) (s : @series L mc_cell)
   : option (mnt Z) :=
+  if negb dtype_ok then None else
   let s0 := reset_index s in
   let original_index := map fst s0 in
   sets <- ser_apply_opt (fun row => split_by_sep row sep) s0 ;;
@@ -190,7 +231,7 @@ Definition multicategorical_forward {L} (cats : list pval) (sep : option str) (s
   let merged := merge_left exploded (multicat_index cats) in
   let kept := filter (fun r => match r with (_, Some _, Some _) => true | _ => false end) merged in   (* .dropna() *)
   let values := flat_map (fun r => match snd r with Some k => [k] | None => [] end) kept in          (* ['index'].values *)
-  let counts := label_counts (map (fun r => fst (fst r)) kept) original_index in
+  let counts := label_counts Nat.eqb (map (fun r => fst (fst r)) kept) original_index in   (* value_counts().reindex(original_index) *)
   let offset := cumsum (0 :: counts) in                                   (* cumsum(concat([0], offset)) *)
   mk_mnt Z (length original_index) 1 values offset.
 
@@ -205,15 +246,16 @@ Definition get_sequence_length (row : seq_cell) : option nat :=
   | SQOther => None                                                       (* ValueError *)
   end.
 
-Definition sequence_forward {L} (s : @series L seq_cell) : option (mnt num) :=
+Definition sequence_forward {L} (leqb : L -> L -> bool) (s : @series L seq_cell) : option (mnt num) :=
   let num_rows := length s in
-  lens <- mapM get_sequence_length (ser_values s) ;;                      (* offset = ser.apply(get_sequence_length) *)
-  let kept := map fst (filter (fun p => negb (snd p =? 0)) (combine s lens)) in        (* ser = ser[offset != 0] *)
-  let offset := cumsum (0 :: lens) in
+  offset <- ser_apply_opt get_sequence_length s ;;                        (* offset = ser.apply(get_sequence_length) *)
+  let mask := ser_apply (fun k => negb (k =? 0)) offset in                 (* offset != 0 *)
+  kept <- mask_select leqb s mask ;;                                      (* ser = ser[offset != 0] *)
+  let offsets := cumsum (0 :: ser_values offset) in
   let lists := ser_apply (fun c => match c with SQList l => l | _ => [] end) kept in
   let values := map (fun p => match snd p with Some x => astype_float x | None => NNaN end)
                     (explode lists) in                                    (* ser.explode().values.astype('float32') *)
-  mk_mnt num num_rows 1 values offset.
+  mk_mnt num num_rows 1 values offsets.
 
 (* ------------------------------------------------------------------------- *)
 (* TimestampTensorMapper: a cell is the result of pd.to_datetime(errors='coerce'):
@@ -286,11 +328,11 @@ Definition numerical_encode {L} (s : @series L (option num)) : list ecell :=
   map (fun x => [SNum x]) (numerical_forward s).
 Definition categorical_encode {L} (cats : list pval) (s : @series L (option pval)) : list ecell :=
   map (fun k => [SInt k]) (categorical_forward cats s).
-Definition multicategorical_encode {L} (cats : list pval) (sep : option str) (s : @series L mc_cell)
+Definition multicategorical_encode {L} (dtype_ok : bool) (cats : list pval) (sep : option str) (s : @series L mc_cell)
   : option (list ecell) :=
-  t <- multicategorical_forward cats sep s ;; c <- mnt_column t ;; Some (map (map SInt) c).
-Definition sequence_encode {L} (s : @series L seq_cell) : option (list ecell) :=
-  t <- sequence_forward s ;; c <- mnt_column t ;; Some (map (map SNum) c).
+  t <- multicategorical_forward dtype_ok cats sep s ;; c <- mnt_column t ;; Some (map (map SInt) c).
+Definition sequence_encode {L} (leqb : L -> L -> bool) (s : @series L seq_cell) : option (list ecell) :=
+  t <- sequence_forward leqb s ;; c <- mnt_column t ;; Some (map (map SNum) c).
 Definition timestamp_encode {L} (s : @series L (option Z)) : list ecell :=
   map (map SInt) (timestamp_forward s).
 Definition embedding_encode {L} (s : @series L (list num)) : option (list ecell) :=
